@@ -757,6 +757,21 @@ func genC11(tier string) []Scenario {
 			add(batchScn{name: fmt.Sprintf("cancel-rerun-after-failed-run n=2 c=%d stop=%v lazy", c, stop), n: 2, c: c, stop: stop, budget: 1, execMenu: okOrErrMenu, postMenu: postXOrErr, bound: 0, runs: 2, cancelFromRun: 1, cancel: cancelSpec{kind: 1, lazy: true}})
 		}
 	}
+	// three runs of one node object, the concurrency re-set between them (sequential / pooled in
+	// every pattern), every pattern of context identities (the same cancellable context handed in
+	// again, or a new one), every item failing its first attempt; the LAST run is cancelled from
+	// inside an attempt: no further attempt, whatever the node kept from the earlier runs
+	for _, ids := range [][]int{{0, 0, 0}, {0, 0, 1}, {0, 1, 0}, {0, 1, 1}, {0, 1, 2}} {
+		for m := 0; m < 8; m++ {
+			cs := []int{m & 1, m >> 1 & 1, m >> 2 & 1}
+			for _, w := range []time.Duration{0, time.Hour} {
+				if w > 0 && !(th || m == 2 || m == 5) {
+					continue
+				}
+				add(batchScn{name: fmt.Sprintf("cancel-third-run contexts %v concurrency %v wait=%v n=2 budget=2", ids, cs, w), n: 2, c: cs[0], cByRun: cs, ctxByRun: ids, budget: 2, wait: w, execMenu: failFirstMenu, bound: 0, runs: 3, cancelFromRun: 2, cancel: cancelSpec{kind: 1, lazy: true}})
+			}
+		}
+	}
 	// more items than workers + queue: the submitter itself is blocked while the workers sit in a
 	// one-hour retry wait when the cancellation arrives
 	for _, c := range []int{1, 2} {
